@@ -157,6 +157,7 @@ def run_c08(tier):
         ixs = [ix for ix in index if ix[0] not in excluded]
         r = core.run_tlc("Trace_Determinism.tla", "Trace_Determinism.cfg", workers=1, timeout=1800, want_emits=False,
                          extra_files={"trace.ndjson": "\n".join(lines) + "\n"})
+        core.check_tlc_error(r, "validating determinism runs")
         hw = None
         for ln in r.raw_tail.split("\n"):
             if ln.startswith('<<"HW"'):
